@@ -870,6 +870,12 @@ class CallMixin:
             for k in list(st.heap.keys()):
                 self.heap_set(st, k, z3.Const(fresh_name('H:' + ':'.join(map(str, k))), st.heap[k].sort()))
             return
+        if spec == '*dicts':
+            # the content of any dictionary (callbacks that unregister things), no object field
+            for k in list(st.heap.keys()):
+                if k[0] in ('dd', 'dv'):
+                    self.heap_set(st, k, z3.Const(fresh_name('H:' + ':'.join(map(str, k))), st.heap[k].sort()))
+            return
         if spec == '*lists':
             for k in list(st.heap.keys()):
                 if k[0] in ('ll', 'le', 'lj'):
